@@ -68,3 +68,81 @@ def exc_class(e: BaseException) -> str:
     if n in ("IndexError", "KeyError"): return "ErrIndex"
     if n == "ValidationError": return "ErrValidation"
     return "ErrOther:" + n
+
+
+# ------------------------------------------------------------------ a picklable table-driven optimizer (C19, C20)
+import json as _json
+import os as _os
+
+
+class TableConfig(BaseOptimizationConfig):
+    population_size: int = 1
+    max_cycles: int = 1
+    a: int = 0
+    b: int = 0
+    c: int = 0
+
+
+class TableOptimizer(OptimizationAbstract):
+    """optimize() does no search: its best cost is table[parameters][k] for the k-th call made under those parameters
+    (call indexes are claimed through marker files in `logdir`, so it works across the worker processes of
+    HyperTuner / Multitask), and every call is logged with the parameters, mode and workers it saw."""
+
+    def __init__(self, config=None, debug=False, table=None, logdir=None):
+        super().__init__(config, debug)
+        self.table = table or {}
+        self.logdir = logdir
+
+    def set_config_parameters(self, parameters):
+        self._config = TableConfig(**parameters)
+
+    def optimization_step(self):
+        pass
+
+    def key(self):
+        c = self._config
+        return f"{c.a},{c.b},{c.c}"
+
+    def optimize(self, task, mode=None, workers=None):
+        from pyvolutionary.models import OptimizationResult, Population
+        if not self._config:
+            raise ValueError("Invalid configuration")
+        key = self.key()
+        k = 0
+        while True:
+            try:
+                fd = _os.open(_os.path.join(self.logdir, f"{self.name}_{key}_{task.name}_{k}"), _os.O_CREAT | _os.O_EXCL | _os.O_WRONLY)
+                break
+            except FileExistsError:
+                k += 1
+        _os.write(fd, _json.dumps({"algo": self.name, "key": key, "k": k, "mode": mode, "workers": workers, "task": task.name}).encode())
+        _os.close(fd)
+        scores = self.table.get(key, [0.0])
+        cost = scores[k % len(scores)]
+        internal = cost if task.minmax == TaskType.MIN else -cost
+        a = Agent(position=[0.0], cost=internal, fitness=0.5)
+        return OptimizationResult(evolution=[Population(agents=[a], task_type=task.minmax)], rates=[0.0], best_solution=a, task_type=task.minmax)
+
+
+class TableOptimizerB(TableOptimizer):
+    pass
+
+
+class TableOptimizerC(TableOptimizer):
+    pass
+
+
+class DummyTaskB(DummyTask):
+    pass
+
+
+class DummyTaskC(DummyTask):
+    pass
+
+
+def read_call_log(logdir):
+    out = []
+    for f in sorted(_os.listdir(logdir)):
+        with open(_os.path.join(logdir, f)) as fh:
+            out.append(_json.loads(fh.read()))
+    return out
